@@ -60,9 +60,12 @@ pub struct ProcInfo {
 
 pub struct Ctl {
     pub sock_path: PathBuf,
-    rx: Receiver<Ev>,
-    tx: Sender<Ev>,
-    buf: VecDeque<Ev>,
+    rx: Receiver<(u64, Ev)>,
+    tx: Sender<(u64, Ev)>,
+    buf: VecDeque<(u64, Ev)>,
+    /// one counter stamps every arriving event (at arrival, in the reader thread) and every
+    /// controller action: happens-before is judged on these stamps, never on consumption order
+    clock: Arc<std::sync::atomic::AtomicU64>,
     conns: Arc<Mutex<HashMap<usize, UnixStream>>>,
     pub procs: Vec<ProcInfo>,
     stop: Arc<AtomicBool>,
@@ -74,16 +77,18 @@ pub struct Ctl {
 fn reader_thread(
     conn: usize,
     stream: UnixStream,
-    tx: Sender<Ev>,
+    tx: Sender<(u64, Ev)>,
     probes: Arc<Mutex<HashMap<String, u64>>>,
+    clock: Arc<std::sync::atomic::AtomicU64>,
 ) {
+    let stamp = || clock.fetch_add(1, Ordering::SeqCst) + 1;
     let mut rd = BufReader::new(stream);
     let mut line = String::new();
     loop {
         line.clear();
         match rd.read_line(&mut line) {
             Ok(0) | Err(_) => {
-                let _ = tx.send(Ev::Eof { conn });
+                let _ = tx.send((stamp(), Ev::Eof { conn }));
                 return;
             }
             Ok(_) => {}
@@ -102,38 +107,47 @@ fn reader_thread(
                     args.push(unhex(it.next().unwrap_or("-")));
                 }
                 let stdin_null = it.next() == Some("STDIN0");
-                let _ = tx.send(Ev::Hello(Hello {
-                    conn,
-                    actor,
-                    pid,
-                    argv0,
-                    cwd,
-                    args,
-                    stdin_null,
-                }));
+                let _ = tx.send((
+                    stamp(),
+                    Ev::Hello(Hello {
+                        conn,
+                        actor,
+                        pid,
+                        argv0,
+                        cwd,
+                        args,
+                        stdin_null,
+                    }),
+                ));
             }
             Some("POINT") => {
                 let actor = unhex_str(it.next().unwrap_or("-"));
                 let pid = it.next().and_then(|x| x.parse().ok()).unwrap_or(0);
                 let name = unhex_str(it.next().unwrap_or("-"));
                 let detail = unhex_str(it.next().unwrap_or("-"));
-                let _ = tx.send(Ev::Point(Point {
-                    conn,
-                    actor,
-                    pid,
-                    name,
-                    detail,
-                }));
+                let _ = tx.send((
+                    stamp(),
+                    Ev::Point(Point {
+                        conn,
+                        actor,
+                        pid,
+                        name,
+                        detail,
+                    }),
+                ));
             }
             Some("PROBE") => {
                 let name = unhex_str(it.next().unwrap_or("-"));
                 *probes.lock().unwrap().entry(name).or_insert(0) += 1;
             }
             _ => {
-                let _ = tx.send(Ev::Line {
-                    conn,
-                    line: l.to_string(),
-                });
+                let _ = tx.send((
+                    stamp(),
+                    Ev::Line {
+                        conn,
+                        line: l.to_string(),
+                    },
+                ));
             }
         }
     }
@@ -147,7 +161,9 @@ impl Ctl {
         let conns: Arc<Mutex<HashMap<usize, UnixStream>>> = Arc::new(Mutex::new(HashMap::new()));
         let stop = Arc::new(AtomicBool::new(false));
         let probes = Arc::new(Mutex::new(HashMap::new()));
+        let clock = Arc::new(std::sync::atomic::AtomicU64::new(0));
         {
+            let clock = clock.clone();
             let tx = tx.clone();
             let conns = conns.clone();
             let stop = stop.clone();
@@ -168,7 +184,8 @@ impl Ctl {
                     }
                     let tx = tx.clone();
                     let probes = probes.clone();
-                    std::thread::spawn(move || reader_thread(id, s, tx, probes));
+                    let clock = clock.clone();
+                    std::thread::spawn(move || reader_thread(id, s, tx, probes, clock));
                 }
             });
         }
@@ -182,11 +199,13 @@ impl Ctl {
             stop,
             probes,
             seq: 0,
+            clock,
         })
     }
 
+    /// stamp of a controller action
     pub fn tick(&mut self) -> u64 {
-        self.seq += 1;
+        self.seq = self.clock.fetch_add(1, Ordering::SeqCst) + 1;
         self.seq
     }
 
@@ -214,6 +233,7 @@ impl Ctl {
             child: slot,
         });
         let tx = self.tx.clone();
+        let clock = self.clock.clone();
         std::thread::spawn(move || {
             let h = std::thread::spawn(move || {
                 let mut b = Vec::new();
@@ -235,13 +255,16 @@ impl Ctl {
                     (None, Some(info.si_status()))
                 }
             };
-            let _ = tx.send(Ev::Exit(ProcExit {
-                proc_id: id,
-                code,
-                signal,
-                stdout: out,
-                stderr: err,
-            }));
+            let _ = tx.send((
+                clock.fetch_add(1, Ordering::SeqCst) + 1,
+                Ev::Exit(ProcExit {
+                    proc_id: id,
+                    code,
+                    signal,
+                    stdout: out,
+                    stderr: err,
+                }),
+            ));
         });
         Ok(id)
     }
@@ -275,11 +298,12 @@ impl Ctl {
     }
 
     /// Take the first event (buffered or arriving before the deadline) for which `pred` holds.
-    /// Events that do not match stay buffered, in arrival order.
+    /// Events that do not match stay buffered, in arrival order. `self.seq` becomes the ARRIVAL
+    /// stamp of the returned event.
     pub fn wait_for(&mut self, mut pred: impl FnMut(&Ev) -> bool, timeout: Duration) -> Option<Ev> {
-        if let Some(i) = self.buf.iter().position(|e| pred(e)) {
-            let ev = self.buf.remove(i).unwrap();
-            self.seq += 1;
+        if let Some(i) = self.buf.iter().position(|e| pred(&e.1)) {
+            let (st, ev) = self.buf.remove(i).unwrap();
+            self.seq = st;
             return Some(ev);
         }
         let deadline = Instant::now() + timeout;
@@ -289,13 +313,13 @@ impl Ctl {
                 return None;
             }
             match self.rx.recv_timeout(deadline - now) {
-                Ok(ev) => {
+                Ok((st, ev)) => {
                     self.note(&ev);
                     if pred(&ev) {
-                        self.seq += 1;
+                        self.seq = st;
                         return Some(ev);
                     }
-                    self.buf.push_back(ev);
+                    self.buf.push_back((st, ev));
                 }
                 Err(RecvTimeoutError::Timeout) => return None,
                 Err(RecvTimeoutError::Disconnected) => return None,
@@ -305,19 +329,19 @@ impl Ctl {
 
     /// Non-blocking: is there a buffered/arrived event matching `pred`? (does not consume)
     pub fn peek(&mut self, mut pred: impl FnMut(&Ev) -> bool) -> bool {
-        while let Ok(ev) = self.rx.try_recv() {
+        while let Ok((st, ev)) = self.rx.try_recv() {
             self.note(&ev);
-            self.buf.push_back(ev);
+            self.buf.push_back((st, ev));
         }
-        self.buf.iter().any(|e| pred(e))
+        self.buf.iter().any(|e| pred(&e.1))
     }
 
     pub fn drain_buffer(&mut self) -> Vec<Ev> {
-        while let Ok(ev) = self.rx.try_recv() {
+        while let Ok((st, ev)) = self.rx.try_recv() {
             self.note(&ev);
-            self.buf.push_back(ev);
+            self.buf.push_back((st, ev));
         }
-        self.buf.drain(..).collect()
+        self.buf.drain(..).map(|e| e.1).collect()
     }
 
     pub fn wait_exit(&mut self, proc_id: usize, timeout: Duration) -> Option<ProcExit> {
